@@ -10,11 +10,17 @@ use std::time::Instant;
 
 use serde_json::{json, Value};
 
-use crate::engine::{fnv64, mix, Ctx, ReplayDoc, VERIF_DIR};
+use crate::engine::{fnv64, mix, target_dir, verif_dir, Ctx, ReplayDoc};
 
-pub const FUZZ_DIR: &str = "/verif/fuzz";
-pub const FUZZ_TARGET_DIR: &str = "/verif/target/fuzz";
-const FUZZ_BIN_DIR: &str = "/verif/target/fuzz/x86_64-unknown-linux-gnu/release";
+fn fuzz_target_dir() -> PathBuf {
+    target_dir().join("fuzz")
+}
+fn fuzz_bin_dir() -> PathBuf {
+    fuzz_target_dir().join("x86_64-unknown-linux-gnu").join("release")
+}
+fn fuzz_work_dir() -> PathBuf {
+    target_dir().join("fuzz-work")
+}
 
 pub struct Campaign<'a> {
     /// evidence sub-check name, e.g. "fuzz:bdl_text"
@@ -39,8 +45,12 @@ pub struct Campaign<'a> {
 pub fn build(ctx: &Ctx) -> bool {
     let t0 = Instant::now();
     let out = Command::new("cargo")
-        .args(["+nightly", "fuzz", "build", "--fuzz-dir", FUZZ_DIR, "--sanitizer", "none", "--target-dir", FUZZ_TARGET_DIR])
-        .current_dir(Path::new(VERIF_DIR).join("harness"))
+        .args(["+nightly", "fuzz", "build", "--fuzz-dir"])
+        .arg(verif_dir().join("fuzz"))
+        .args(["--sanitizer", "none", "--target-dir"])
+        .arg(fuzz_target_dir())
+        .env("VERIF_TARGET", target_dir())
+        .current_dir(verif_dir().join("harness"))
         .env("CARGO_NET_OFFLINE", "true")
         .output();
     match out {
@@ -110,7 +120,7 @@ fn allow_env(ctx: &Ctx, sig_prefix: &str) -> String {
 
 /// Runs one input file through the target, alone. Returns (exit ok, stderr)
 fn run_single(ctx: &Ctx, target: &str, sig_prefix: &str, input: &Path, timeout_s: u64, strict: bool) -> (bool, String) {
-    let mut cmd = Command::new(Path::new(FUZZ_BIN_DIR).join(target));
+    let mut cmd = Command::new(fuzz_bin_dir().join(target));
     cmd.arg(format!("-timeout={}", timeout_s)).arg("-rss_limit_mb=3072").arg(input).stdout(Stdio::null()).stderr(Stdio::piped());
     cmd.env("VERIF_FUZZ_ALLOW", allow_env(ctx, sig_prefix));
     cmd.env_remove("VERIF_FUZZ_STATS");
@@ -119,7 +129,7 @@ fn run_single(ctx: &Ctx, target: &str, sig_prefix: &str, input: &Path, timeout_s
     } else {
         cmd.env_remove("VERIF_STRICT");
     }
-    let work = Path::new("/verif/target/fuzz-work").join(target).join("single");
+    let work = fuzz_work_dir().join(target).join("single");
     let _ = std::fs::create_dir_all(&work);
     cmd.arg(format!("-artifact_prefix={}/", work.display()));
     match cmd.output() {
@@ -152,12 +162,12 @@ pub fn run(ctx: &Ctx, c: &Campaign) {
     if !ctx.wants(c.sub) {
         return;
     }
-    let bin = Path::new(FUZZ_BIN_DIR).join(c.target);
+    let bin = fuzz_bin_dir().join(c.target);
     if !bin.exists() {
         ctx.infra_error(format!("fuzz target binary {} missing", bin.display()));
         return;
     }
-    let work = Path::new("/verif/target/fuzz-work").join(c.target);
+    let work = fuzz_work_dir().join(c.target);
     let _ = std::fs::remove_dir_all(&work);
     let _ = std::fs::create_dir_all(&work);
     let dict_path = work.join("dict.txt");
@@ -298,7 +308,7 @@ fn dict_txt_is_empty(p: &Path) -> bool {
 fn report(ctx: &Ctx, c: &Campaign, sig: &str, what: &str, bytes: Option<&[u8]>) {
     let b = bytes.unwrap_or(&[]);
     // the raw input next to the JSON replay document, for direct use with the libFuzzer binary
-    let dir = Path::new(VERIF_DIR).join("replays").join(&ctx.id);
+    let dir = verif_dir().join("replays").join(&ctx.id);
     let _ = std::fs::create_dir_all(&dir);
     let raw = dir.join(format!("fuzz-{}-{:016x}.bin", c.target, fnv64(b)));
     let _ = std::fs::write(&raw, b);
@@ -320,7 +330,7 @@ pub fn replay_one(ctx: &Ctx, doc: &ReplayDoc) {
     if !build(ctx) {
         return;
     }
-    let dir = Path::new("/verif/target/fuzz-work").join(&target).join("replay");
+    let dir = fuzz_work_dir().join(&target).join("replay");
     let _ = std::fs::create_dir_all(&dir);
     let input = dir.join(format!("{:016x}.bin", fnv64(&bytes)));
     let _ = std::fs::write(&input, &bytes);
@@ -373,4 +383,29 @@ pub fn sample_values<T: std::fmt::Debug>(strategy: &proptest::strategy::BoxedStr
         ..Config::default()
     });
     (0..n).filter_map(|_| strategy.new_tree(&mut runner).ok().map(|t| t.current())).collect()
+}
+
+/// Starting corpus and dictionary of the model-JSON targets: generated closed and open models (small), one
+/// of them written compactly, and the smallest shipped model
+pub fn model_json_corpus(seed: u64, salt: &str) -> (Vec<(String, Vec<u8>)>, Vec<String>) {
+    use crate::gen::model::{self, Params};
+    let mut seeds: Vec<(String, Vec<u8>)> = vec![];
+    for (k, open) in [false, true].into_iter().enumerate() {
+        let plans = sample_values(&model::plan(Params { open, max_spaces: 2, ..Params::default() }), 12, seed, &format!("{}/{}", salt, k));
+        for (i, pl) in plans.iter().enumerate() {
+            let m = model::build(pl);
+            if let Ok(j) = m.as_json() {
+                seeds.push((format!("generated-{}-{}", if open { "open" } else { "closed" }, i), j.into_bytes()));
+            }
+            if i == 0 {
+                if let Ok(j) = serde_json::to_vec(&m) {
+                    seeds.push((format!("generated-compact-{}", k), j));
+                }
+            }
+        }
+    }
+    let cubo = std::fs::read_to_string("/repo/bemodel/tests/data/cubo.json").unwrap_or_default();
+    let dict = tokens_of(&[cubo.clone(), seeds.first().map(|s| String::from_utf8_lossy(&s.1).to_string()).unwrap_or_default()], 300);
+    seeds.push(("cubo.json".into(), cubo.into_bytes()));
+    (seeds, dict)
 }
